@@ -543,6 +543,54 @@ def run(ctx):
               message="replicated state is changed outside the replay handlers: " + ", ".join(f"{f.short}:{w}" for f, _, w in ext),
               how="who-may-write census: only JournalStorageReplayResult handlers")
 
+    # ------------------------------------------------------------ R06.8 backends hand out a gap-free run of records
+    ctx.rule("R06.8", "JournalRedisBackend.read_logs returns records log_number_from, +1, +2, ... with no gap: JournalStorage counts the "
+             "records it applied, so a skipped number shifts every later record (the worker re-applies one record and never sees another)")
+    rf = p.func("optuna.storages.journal._redis.JournalRedisBackend.read_logs")
+    g = CFG(rf.node, name=rf.qualname)
+    rets = [n.ast.value for n in g.stmt_nodes() if n.kind == "stmt" and isinstance(n.ast, ast.Return) and isinstance(n.ast.value, ast.Name)]
+    ctx.require(rets, "R06.8: redis read_logs does not return a named list")
+    out = rets[-1].id
+    heads = [n for n in g.stmt_nodes() if n.kind == "iter" and isinstance(n.ast.iter, ast.Call) and dotted(n.ast.iter.func) == "range"]
+    ctx.require(len(heads) == 1, f"R06.8: expected one range loop in redis read_logs, found {len(heads)}")
+    head = heads[0]
+    rng = head.ast.iter
+    ctx.require(isinstance(head.ast.target, ast.Name) and len(rng.args) == 2, "R06.8: unrecognised loop header in redis read_logs")
+    ivar = head.ast.target.id
+    prm = rf.params()
+    ctx.check(norm(rng.args[0]) == prm[1], "R06.8", rf.short, "starts-at-requested-number",
+              message=f"redis read_logs starts at `{norm(rng.args[0])}`, not at the requested record number", how="range(log_number_from, ...)")
+    # the upper bound is the highest number the backend has handed out: `<max> + 1`
+    ub = rng.args[1]
+    last = norm(ub.left) if isinstance(ub, ast.BinOp) and isinstance(ub.op, ast.Add) and norm(ub.right) == "1" else None
+    apps = [n for n in g.stmt_nodes() for c in n.calls() if isinstance(c.func, ast.Attribute) and c.func.attr == "append" and norm(c.func.value) == out]
+    ctx.require(apps, "R06.8: redis read_logs never appends to the returned list")
+    # edges on which this is known to be the last iteration (a record that cannot be decoded yet may
+    # be left out there: what is returned is still a gap-free prefix)
+    from sa.expr import cmp_atom
+
+    def atom_last(e):
+        a = cmp_atom(e)
+        if a and last is not None and {a[0], a[2]} == {ivar, last}:
+            if a[1] in (ast.Eq,):
+                return True
+            if a[1] in (ast.NotEq,):
+                return False
+        return None
+    last_edges = [(t, k, m) for t in g.stmt_nodes() if t.kind == "test" for k, m in t.succ if edges_where(t.expr, atom_last).get(k) is True]
+    body0 = [m for k, m in head.succ if k == "loop"]
+    # the appending statement counts as passed only on its normal continuation: when json.loads
+    # raises inside it nothing was appended, so its exceptional edges stay in the graph
+    NORMAL6 = lambda a, k, b: (k in ("e",)) if a in apps else (k not in ("e", "reraise"))  # noqa: E731
+    r = g.reachable(body0, avoid_edges=last_edges, edge_ok=NORMAL6)
+    ctx.check(head not in r, "R06.8", rf.short, "no-record-skipped",
+              message="redis read_logs can go on to the next record number without having appended the current one (and it is not the last number): "
+                      "the records after the gap are applied under wrong numbers - this worker's state diverges from every worker that saw the skipped record",
+              how="within an iteration the loop head is unreachable without passing the append (except on the `last number` edge)",
+              witness=g.witness([head], edges=last_edges, src=body0[0], edge_ok=NORMAL6) if head in r else None)
+    # the storage side: the cursor advances by one per record handed over
+    ctx.note("R06.8_scope", "file backend: consecutive numbering is enumerate()-driven and guarded by R07.4/R07.5")
+
 
 def _root_field(e):
     from sa.util import root_self_attr
